@@ -19,7 +19,10 @@ RULE = ("files from the C11 generator restricted to option sets that always reco
         "FileGenerator over 1-3 files x slice_range in {1,2,3,100}; LIVE-HANDLE sessions: random scripts on 1-2 open "
         "readers of one file (different slice_ranges) that create handles by f[i], f[-i], f[a:b:c], iter(f), advance "
         "iterators, close()+open() a reader, and examine every handle later, out of creation order and interleaved "
-        "with further accesses - each handle must show the event the model assigns to its access path; a case is one "
+        "with further accesses - each handle must show the event the model assigns to its access path; search only: "
+        "HDF5Reader.get_waveforms(event_id, antenna_id, waveform_type) as one more access path, ONE reader object "
+        "opened again after each append session ('a' / 'r+') while the file grows, FileGenerator given a bare file "
+        "name, FileGenerator.count after the count setter; a case is one "
         "request (or one session) on one file; "
         "distinct = distinct (file, request) pairs")
 LEVEL_TEXT = ("machine-checked Lean 4 theorems, for files of any length written by any add / reject / reopen history: "
@@ -31,7 +34,7 @@ LEVEL_TEXT = ("machine-checked Lean 4 theorems, for files of any length written 
               "paths of real files with n <= 6 (quick) / n <= 12 (thorough) events")
 LEVEL_NOTE = ("all C12 theorems are fully proved (no _partial): C12_iterate_eq_sequential, C12_getitem_int, "
               "C12_getitem_int_out_of_range, C12_getitem_slice, C12_append_eq_single, C12_append_iterate, C12_filegen_chunk, "
-              "C12_filegen_replays, C12_filegen_count, C12_filegen_count_total, C12_load_cut_matches_source (statements of "
+              "C12_filegen_replays, C12_filegen_count, C12_filegen_count_total, C12_filegen_count_setter, C12_handles_independent, C12_load_cut_matches_source (statements of "
               "_load_data / __next__ regenerated from pyrex/io.py on every run), C12_step2_witness, C12_orphan_witness (the last "
               "two show that the unrepaired cumulative cut of _load_data is wrong).  Assumed / outside the theorems: row "
               "contents (see C11); files are written under option sets that record particles; slice_range <= 0, slices "
@@ -333,6 +336,9 @@ def oracle_access(spec, n, seed, nslices, d):
                     return ("f[%d] differs from the sequential pass" % i, why, None)
             elif e != "index":
                 return ("f[%d] on %d events" % (i, n), e, "index")
+        why = reader_level_waveforms(r, seq)
+        if why:
+            return ("HDF5Reader.get_waveforms(event_id=...) differs from the event's own waveforms", why, None)
     for sr in range(1, n + 2):
         with H.Reader(b.fn, sr) as r:
             err, evs = r.iterate()
@@ -360,6 +366,72 @@ def oracle_access(spec, n, seed, nslices, d):
         for r in readers.values():
             r.close()
     return None
+
+
+def reader_level_waveforms(r, seq):
+    """the reader-level access path to one event's waveforms (`File.get_waveforms(event_id, antenna_id,
+    waveform_type)`, rows cut by `_get_table_slice`) against the event handles of the sequential pass"""
+    import numpy as np
+    for i, ev in enumerate(seq):
+        rows = ev["waveforms"]
+        try:
+            got = r.f.get_waveforms(event_id=i)
+        except ValueError as e:
+            if "not saved" in str(e) and not any(e2["waveforms"] for e2 in seq):
+                return None
+            return "event %d: raised %s" % (i, H._tail(e))
+        except Exception as e:      # noqa: BLE001
+            return "event %d: raised %s" % (i, H._tail(e))
+        if len(got) != len(rows):
+            return "event %d: %d rows, the event handle shows %d" % (i, len(got), len(rows))
+        canon = H.canon_waveform_rows(got)
+        if canon != rows:
+            return "event %d: rows differ from the event handle" % i
+        for k in range(len(rows)):
+            for a in range(got.shape[1]):
+                try:
+                    one = r.f.get_waveforms(event_id=i, antenna_id=a, waveform_type=k)
+                except Exception as e:      # noqa: BLE001
+                    return "event %d antenna %d waveform %d: raised %s" % (i, a, k, H._tail(e))
+                if not H._same(one, got[k, a]):
+                    return "event %d antenna %d waveform %d differs from get_waveforms(event_id)[k, a]" % (i, a, k)
+    return None
+
+
+def oracle_grow(spec, d):
+    """ONE reader object opened again and again while the file grows (the writer appends in sessions):
+    after every session len / iteration / f[-1] must show everything written so far"""
+    from pyrex.io import File
+    fn = os.path.join(d, "g.h5")
+    state = {"reader": None, "bad": None}
+
+    def look(b):
+        if state["bad"] or not b.ok_calls:
+            return
+        exp = b.expected_stream()
+        if state["reader"] is None:
+            state["reader"] = File(fn, "r", slice_range=state.get("sr"))
+        f = state["reader"]
+        f.open()
+        try:
+            mck = [str(k) for k in f._file[H.LOC["mc_triggers"]].attrs["keys"]] if H.LOC["mc_triggers"] in f._file else []
+            if len(f) != len(exp):
+                state["bad"] = ("a reader opened again after the file grew reports a stale length", len(f), len(exp))
+                return
+            got = [H.canon_event(ev, mck) for ev in f]
+            why = H.diff_events(exp, got)
+            if not why:
+                why = H.diff_events([exp[-1]], [H.canon_event(f[-1], mck)])
+            if why:
+                state["bad"] = ("a reader opened again after the file grew does not show the current content", why, None)
+        except Exception as e:      # noqa: BLE001
+            state["bad"] = ("a reader opened again after the file grew raised", H._tail(e), None)
+        finally:
+            f.close()
+    b = H.write_file(spec, fn, on_reopen=look)
+    look(b)
+    os.remove(fn)
+    return state["bad"]
 
 
 def oracle_split(base, variants, d):
@@ -406,6 +478,53 @@ def oracle_fg(specs, srs, d):
         for k, tot in ends:
             if counts[k - 1] != tot:
                 return ("FileGenerator.count after the last event of a file (slice_range=%d)" % sr, counts[k - 1], tot)
+        # the count setter: a custom count set mid-stream shifts every later count by the same amount
+        why = fg_count_setter([b.fn for b in builts], sr, counts)
+        if why:
+            return ("FileGenerator.count after `generator.count = c`", why, None)
+    if len(builts) == 1:      # a single file may be given as a plain string
+        from pyrex.generation import FileGenerator
+        try:
+            g = FileGenerator(builts[0].fn, slice_range=2)
+            got = []
+            try:
+                while True:
+                    got.append(H.particle_sig(g.create_event()))
+            except StopIteration:
+                pass
+            finally:
+                g._file.close()
+        except Exception as e:      # noqa: BLE001
+            return ("FileGenerator(<single file name as str>) raised", H._tail(e), "replay")
+        if got != want:
+            return ("FileGenerator(<single file name as str>) does not replay the file", len(got), len(want))
+    return None
+
+
+def fg_count_setter(files, sr, counts):
+    from pyrex.generation import FileGenerator
+    if len(counts) < 2:
+        return None
+    j = len(counts) // 2
+    g = FileGenerator(list(files), slice_range=sr)
+    try:
+        for _ in range(j):
+            g.create_event()
+        c0 = 1000 + counts[j - 1]
+        g.count = c0
+        if g.count != c0:
+            return "count reads %r right after being set to %r" % (g.count, c0)
+        for k in range(j, len(counts)):
+            g.create_event()
+            if g.count != c0 + counts[k] - counts[j - 1]:
+                return "after event %d: count %r, expected %r" % (k, g.count, c0 + counts[k] - counts[j - 1])
+    except Exception as e:      # noqa: BLE001
+        return "raised " + H._tail(e)
+    finally:
+        try:
+            g._file.close()
+        except Exception:      # noqa: BLE001
+            pass
     return None
 
 
@@ -456,6 +575,12 @@ def _search_job(job, col, d):
     elif kind == "split":
         res = oracle_split(job["base"], job["variants"], d)
         col.case(("oracle-split", H.describe(job["base"])))
+        if res is None:
+            for v in job["variants"]:
+                res = oracle_grow(v, d)
+                col.count("oracle_grow")
+                if res:
+                    break
     else:
         res = oracle_fg(job["specs"], job["srs"], d)
         col.case(("oracle-fg", [H.describe(s) for s in job["specs"]]))
